@@ -1131,7 +1131,7 @@ class Gen:
     def __init__(self, rng, **cfg):
         self.rng = rng
         self.cfg = dict(zero_trip=True, ret_names=True, guarded_bounds=True, printer_stress=True,
-                        builtin_kwargs=True, funcs=True, faults=False, max_depth=2)
+                        builtin_kwargs=True, funcs=True, call_boost=False, max_depth=2)
         self.cfg.update(cfg)
         self.tag = 0
 
@@ -1170,6 +1170,8 @@ class Gen:
 
     def expr(self, env, depth=0):
         rng = self.rng
+        if self.cfg.get("call_boost") and depth < self.cfg["max_depth"] and rng.random() < 0.15:
+            return self.call_expr(env, depth)
         r = rng.random()
         if depth >= self.cfg["max_depth"] or r < 0.3:
             e = self.elem(env) if rng.random() < 0.3 else None
@@ -1330,10 +1332,43 @@ class Gen:
             return ["restart"]
         return ["raise", rng.choice(sorted(EXC_CLASSES)), "stop"]
 
+    def call_stmt(self, env):
+        rng = self.rng
+        out = []
+        f = rng.choice(sorted(self.funcs))
+        self.tag += 1
+        spec = self.funcs[f][0]
+        if spec == "vsum":
+            if not env["arrays"]:
+                return out
+            args = [rng.choice(sorted(env["arrays"]))]
+        else:
+            args = [self.expr(env, 1)]
+        if spec == "pair":
+            t1, t2 = self.new_temp(env), self.new_temp(env)
+            if rng.random() < 0.3:
+                t2 = rng.choice(sorted(env["persist"]))
+            out.append(["call", [t1, t2], f, args, {"tag": self.tag}])
+            env["scalars"].update([t1, t2])
+            env["scalar_temps"].update(t for t in (t1, t2) if not is_persistent(t))
+        else:
+            if rng.random() < 0.15:
+                out.append(["call", [], f, args, {"tag": self.tag}])
+            else:
+                t = self.new_temp(env) if rng.random() < 0.6 else rng.choice(sorted(env["persist"]))
+                out.append(["call", [t], f, args, {"tag": self.tag}])
+                env["scalars"].add(t)
+                if not is_persistent(t):
+                    env["scalar_temps"].add(t)
+        return out
+
     def block(self, env, n_stmts, depth):
         rng = self.rng
         out = []
         for _ in range(n_stmts):
+            if self.cfg.get("call_boost") and self.funcs and rng.random() < 0.2:
+                out.extend(self.call_stmt(env))
+                continue
             r = rng.random()
             if r < 0.18:
                 t = self.new_temp(env) if (rng.random() < 0.6 or not env["scalar_temps"]) \
@@ -1347,31 +1382,7 @@ class Gen:
                 tgt = rng.choice(sorted(env["persist"]))
                 out.append(["assign", tgt, self.expr(env)])
             elif r < 0.42 and self.cfg["funcs"] and self.funcs:
-                f = rng.choice(sorted(self.funcs))
-                self.tag += 1
-                spec = self.funcs[f][0]
-                if spec == "vsum":
-                    if not env["arrays"]:
-                        continue
-                    args = [rng.choice(sorted(env["arrays"]))]
-                else:
-                    args = [self.expr(env, 1)]
-                if spec == "pair":
-                    t1, t2 = self.new_temp(env), self.new_temp(env)
-                    if rng.random() < 0.3:
-                        t2 = rng.choice(sorted(env["persist"]))
-                    out.append(["call", [t1, t2], f, args, {"tag": self.tag}])
-                    env["scalars"].update([t1, t2])
-                    env["scalar_temps"].update(t for t in (t1, t2) if not is_persistent(t))
-                else:
-                    if rng.random() < 0.15:
-                        out.append(["call", [], f, args, {"tag": self.tag}])
-                    else:
-                        t = self.new_temp(env) if rng.random() < 0.6 else rng.choice(sorted(env["persist"]))
-                        out.append(["call", [t], f, args, {"tag": self.tag}])
-                        env["scalars"].add(t)
-                        if not is_persistent(t):
-                            env["scalar_temps"].add(t)
+                out.extend(self.call_stmt(env))
             elif r < 0.48:
                 t = self.new_temp(env, "b")
                 out.append(["assign", t, self.cond(env, 1)])
